@@ -72,6 +72,15 @@ def exBase : DB := [("e", [[.i64 2, .i64 2]]), ("f", [[.i64 3]])]
 example : ¬ SatBody (InWorld exBase []) (world exBase []) [("Y", .i64 2), ("X", .i32 2)] exRule.body :=
   blocker_sound exBase [] exRule [.i32 2] _ (.atomFailed 1 "f" [.conc (.i64 2)]) (by decide) (by decide)
 
+/-! numeric-aware matching in the blocker checker: for `p(X) <- e(X,P), !flag(P, 1)` the reported
+    blocker "negated flag(2,1) exists" (stored as `Int64`s, the rule literal being `Int32 1`) holds, and a
+    "no matching tuples" blocker for a positive atom with an `Int32` target is judged on numeric equality. -/
+def litRule : Rule := ⟨⟨"p", [.var "X"]⟩, [.pos ⟨"e", [.var "X", .var "P"]⟩, .neg ⟨"flag", [.var "P", .int 1]⟩]⟩
+def litBase : DB := [("e", [[.i64 1, .i64 2]]), ("flag", [[.i64 2, .i64 1]])]
+example : blockerHolds litBase [] litRule [.i32 1] [("P", .i64 2), ("X", .i32 1)] (.negSucceeded 1 "flag" [.i64 2, .i64 1]) = true := by decide
+example : blockerHolds litBase [] litRule [.i32 1] [("X", .i32 1)] (.atomFailed 0 "e" [.conc (.i32 1), .unb "P"]) = false := by decide
+example : blockerHolds litBase [] litRule [.i32 5] [("X", .i32 5)] (.atomFailed 0 "e" [.conc (.i32 5), .unb "P"]) = true := by decide
+
 /-- what `.why_not` answers in the model: the context has no derived data (handler.rs:684). -/
 def whyNot (prog : Program) (base : DB) (rel : String) (target : Tuple) : Option (List ClauseExpl) :=
   explainWhyNot { rules := prog, base := base, derived := none } rel target
